@@ -9,12 +9,17 @@ CLAIM = ("Every ortho/frustum/perspective/perspectiveFov/infinitePerspective/twe
          "perspectiveFov is perspective(aspect = width/height); that ndc_z(d) = 1 - k*near/d (k = 2 NO, 1 ZO) for the infinite variants. Under the four clip-control configurations "
          "({}, GLM_FORCE_LEFT_HANDED, GLM_FORCE_DEPTH_ZERO_TO_ONE, both) every unsuffixed and half-suffixed builder, project and unProject is shown bit-exactly (IEEE, all float/double inputs, "
          "libm as uninterpreted functions) equal to the selected fully suffixed variant. projectNO/ZO equal viewport(ndc(proj*model*p)) with depth (z+1)/2 resp. z, send the clip-cube corners "
-         "to the viewport rectangle x [0,1]; unProject inverts project (both orders) and pickMatrix maps the pick rectangle onto the NDC square.")
+         "to the viewport rectangle x [0,1]; unProject inverts project (both orders) and pickMatrix maps the pick rectangle onto the NDC square. "
+         "project*/unProject*/pickMatrix are templated on the viewport's element type U: all of the above (general specification with symbolic matrices, clip cube -> viewport rectangle, "
+         "viewport rectangle -> clip cube, unProject(project(p)) == p, pickMatrix, dispatch) is repeated for U = int, uint and the other floating type with fully symbolic viewport components "
+         "(every 32-bit value; T(viewport[k]) is the exact integer once rounding is erased), and the clip-cube corners are additionally decided bit-exactly (IEEE) for a uvec4 viewport with float matrices.")
 BOUNDS = ('rounding-erased real arithmetic (tan/sin/cos Ackermannised: tan(fovy/2) > 0, sin(fov/2) > 0, cos(fov/2) > 0, tan*cos = sin, sin^2+cos^2 = 1); left<right, bottom<top, 0<near<far, aspect>0, '
           'width,height>0, 0<ep<1; project: clip w != 0; unProject/project round trip: model affine with symbolic 3x4 part and proj of the perspective/ortho sparsity pattern (general 4x4 x 4x4 attempted, '
-          'non-mandatory); dispatch: bit-exact, all bit patterns')
+          'non-mandatory); integer viewports: all 32-bit component values (bit-exact corner check: components < 2^16, quick: 2 opposite corners, thorough: all 8); '
+          'dispatch: bit-exact, all bit patterns on which the selected variant passes its own assert()s')
 OUTSIDE = ('float rounding of the matrix entries; fovy at the ends of (0,pi); infinitePerspectiveLH/infinitePerspectiveRH are declared in matrix_clip_space.hpp but have no definition in this tree '
-           '(cannot be instantiated; checked automatically once a definition appears); unProject(project(p)) for two fully general 4x4 matrices is attempted non-mandatory')
+           '(cannot be instantiated; checked automatically once a definition appears); unProject(project(p)) for two fully general 4x4 matrices is attempted non-mandatory; float rounding of T(viewport[k]) for integer viewport components beyond 2^24 (float) is erased like every other '
+           'rounding; the bit-exact corner check for a signed (ivec4) viewport is attempted non-mandatory in the thorough tier only (signed int->float conversion + add does not bit-blast within the cap)')
 ASSUMPTIONS = ['rounding-erased semantics: every float operation is exact; tan/sin/cos are uninterpreted reals constrained only by the listed identities and sign facts for angles in (0, pi/2)',
                'dispatch: libm tan/sin/cos are uninterpreted functions (the same function on both sides)']
 
@@ -255,6 +260,23 @@ def dispatch_list():
         L.append((fam, ''))
         for vt in ('i', 'u', 'x'): L.append((fam, '', '_%svp' % vt))
     return L
+def native_guarded(unit, fname, vals):
+    """native call in a forked child: a failed assert() inside a (mutated) function must not take the worker process down.  None = the child did not finish normally."""
+    unit.native()
+    r, w = os.pipe(); pid = os.fork()
+    if pid == 0:
+        code = 3
+        try:
+            os.close(r); out = unit.call_native(fname, vals); os.write(w, json.dumps(out).encode()); code = 0
+        finally: os._exit(code)
+    os.close(w); data = b''
+    while True:
+        ch = os.read(r, 65536)
+        if not ch: break
+        data += ch
+    os.close(r); _, st = os.waitpid(pid, 0)
+    if st != 0 or not data: return None
+    return json.loads(data)
 def job_dispatch(cfg, t):
     def run(S):
         Ux = UC[cfg]
@@ -269,6 +291,9 @@ def job_dispatch(cfg, t):
                 S.rec(name='c08.dispatch.%s.%s' % (cfg, f1), kind='encode', result='unsupported', status='not-encoded', note=str(e), mandatory=True, functions=[f1])
                 S.inconclusive.append('c08.dispatch.%s.%s [not encoded: %s]' % (cfg, f1, e)); continue
             n = len(r1.outs[0]); hy = r1.axioms + r2.axioms
+            # equality is demanded where the selected variant itself runs to completion (no failed assert()): a counterexample replay then never aborts in the reference
+            ubB = [c_ for k_, c_, d_ in r2.obligations if k_ in ('ub', 'trap', 'unreachable', 'domain')]
+            if ubB: hy.append(z3.Not(z3.Or(*ubB)) if len(ubB) > 1 else z3.Not(ubB[0]))
             try:        # translator validation of both terms against native execution on sampled inputs
                 for rr in (r1, r2):
                     ncmp, bad = validate_translation(rr, S.rnd, 3 if S.quick else 8)
@@ -281,12 +306,13 @@ def job_dispatch(cfg, t):
                 a, b = r1.outs[0][k], r2.outs[0][k]
                 def replay(m, f1=f1, f2=f2, r1=r1, k=k):
                     vals = S._model_inputs(m, r1)
-                    o1 = Ux.call_native(f1, vals); o2 = Ux.call_native(f2, vals)
-                    info = {'unit': Ux.name, 'fn': f1, 'inputs': [[hex(x) for x in r] for r in vals], 'native': hex(o1[0][k]), 'native_selected': hex(o2[0][k]), 'property': 'C08'}
+                    o1 = native_guarded(Ux, f1, vals); o2 = native_guarded(Ux, f2, vals)
+                    info = {'unit': Ux.name, 'fn': f1, 'inputs': [[hex(x) for x in r] for r in vals], 'native': hex(o1[0][k]) if o1 else 'aborted', 'native_selected': hex(o2[0][k]) if o2 else 'aborted', 'property': 'C08'}
+                    if o1 is None or o2 is None: return ('reproduced' if (o1 is None) != (o2 is None) else 'not-reproduced'), info
                     return ('reproduced' if o1[0][k] != o2[0][k] else 'not-reproduced'), info
                 nm = 'c08.dispatch.%s.%s==%s[%d]' % (cfg, f1, f2, k)
                 r, m = S.prove(nm, a.bits == b.bits, hy, timeout=S.cap(30, 60), kind='spec', functions=['w_' + f1, 'w_' + f2],
-                               bounds='bit-exact, all inputs; config ' + cfg + '; ll=' + Ux.ll_sha(), replay=replay)
+                               bounds='bit-exact, all inputs on which the selected variant passes its own assert()s; config ' + cfg + '; ll=' + Ux.ll_sha(), replay=replay)
                 if r == 'unknown':
                     # the terms differ and the solver found neither proof nor model: help the model search with pinned candidate inputs
                     # (a verdict still needs a solver model reproduced natively; the obligation above stays inconclusive otherwise)
@@ -501,7 +527,7 @@ def job_cube_bits(t, vt, corners, mandatory=True, lim=1 << 16):
                     d = i[3]
                     if sg: return [d[k] > -lim for k in range(4)] + [d[k] < lim for k in range(4)]
                     return [z3.ULT(d[k], lim) for k in range(4)]
-                S.check_fn(U, fname, spec, pre, mode='fp', ins=ins, name='c08.%s.cube-bits(%d,%d,%d)' % (fname, a, b, zc), witness=False, validate=0, timeout=S.cap(60, 120), mandatory=mandatory,
+                S.check_fn(U, fname, spec, pre, mode='fp', ins=ins, name='c08.%s.cube-bits(%d,%d,%d)' % (fname, a, b, zc), witness=False, validate=0, timeout=S.cap(120, 240), mandatory=mandatory,
                            bounds='bit-exact; clip-cube corner, model = proj = I, |viewport components| < %d (sums exactly representable)' % lim)
     return run
 def job_roundtrip_vp(t, vt, fams):
